@@ -156,7 +156,6 @@ def _group_integrands_by_quadrature_rule(
     """
     #
     grouped_integrands: dict[basix.CellType, dict[QuadratureRule, list[Expr]]] = {}
-    # NOTE: this variable changes throughout the loop
     cell_type = basix_cell_from_string(ufl_cell.cellname)
     use_sum_factorization = sum_factorization and integral_type == "cell"
     for integral in integrals:
@@ -178,24 +177,27 @@ def _group_integrands_by_quadrature_rule(
             # prescribed in certain cases.
 
             degree = md["quadrature_degree"]
+            # The rule lives on the integration entity of this integral; the
+            # cell type of the integration domain is the same for all integrals
+            entity_type = cell_type
             if "facet" in integral_type:
                 facet_types = basix.cell.subentity_types(cell_type)[-2]
                 assert len(set(facet_types)) == 1
-                cell_type = facet_types[0]
+                entity_type = facet_types[0]
             elif integral_type == "ridge":
                 ridge_types = basix.cell.subentity_types(cell_type)[-3]
                 assert len(set(ridge_types)) == 1
-                cell_type = ridge_types[0]
+                entity_type = ridge_types[0]
 
             if degree > 1:
                 warnings.warn(
                     "Explicitly selected vertex quadrature (degree 1), "
                     f"but requested degree is {degree}."
                 )
-            points = basix.cell.geometry(cell_type)
-            cell_volume = basix.cell.volume(cell_type)
-            weights = np.full(points.shape[0], cell_volume / points.shape[0], dtype=points.dtype)
-            rules[cell_type] = (points, weights, None)
+            points = basix.cell.geometry(entity_type)
+            entity_volume = basix.cell.volume(entity_type)
+            weights = np.full(points.shape[0], entity_volume / points.shape[0], dtype=points.dtype)
+            rules[entity_type] = (points, weights, None)
         else:
             degree = md["quadrature_degree"]
             # Sum factorization applies only if every element of the integral
@@ -222,16 +224,16 @@ def _group_integrands_by_quadrature_rule(
                 for i in points
             }
 
-        for cell_type, (points, weights, tensor_factors) in rules.items():
+        for rule_cell_type, (points, weights, tensor_factors) in rules.items():
             points = np.asarray(points)
             weights = np.asarray(weights)
             rule = QuadratureRule(points, weights, tensor_factors)
 
-            if cell_type not in grouped_integrands:
-                grouped_integrands[cell_type] = {}
-            if rule not in grouped_integrands[cell_type]:
-                grouped_integrands[cell_type][rule] = []
-            grouped_integrands[cell_type][rule].append(integral.integrand())
+            if rule_cell_type not in grouped_integrands:
+                grouped_integrands[rule_cell_type] = {}
+            if rule not in grouped_integrands[rule_cell_type]:
+                grouped_integrands[rule_cell_type][rule] = []
+            grouped_integrands[rule_cell_type][rule].append(integral.integrand())
     return grouped_integrands
 
 
